@@ -88,7 +88,7 @@ func round(s *slip.Scope, f slip.Object, args slip.List, depth int) slip.Values 
 		q = tn / d
 		r = tn - q.(slip.Fixnum)*d
 		dif := r.(slip.Fixnum) * 2
-		if dif == d && q.(slip.Fixnum)%2 != 0 {
+		if d < dif || (dif == d && q.(slip.Fixnum)%2 != 0) {
 			q = q.(slip.Fixnum) + 1
 			r = tn - q.(slip.Fixnum)*d
 		}
